@@ -78,7 +78,10 @@ class P:
         k, v = self.peek()
         if k == "op" and v in ("!", "&", "*", "-", "~"):
             self.next()
-            return ("un", v, self.unary())
+            operand = self.unary()
+            if v == "-" and operand[0] == "int":
+                return ("int", -operand[1])
+            return ("un", v, operand)
         return self.postfix()
 
     def postfix(self):
